@@ -71,6 +71,6 @@ ANum  == {48, 49, 57, 120, 98, 111, 101, 46, 43, 97, 102, 69, 95}
 AWs   == {32, 9, 13, 10, 47, 97, 0, 195, 169, 59, 34, 108, 101, 116}
 AKw   == {105, 102, 32, 108, 101, 116, 59, 10, 114, 110, 117}
 MCAlphabets == <<AOps, AStr, ANum, AWs, AKw>>
-QMaxLen == <<3, 4, 3, 3, 3>>
+QMaxLen == <<3, 4, 4, 3, 3>>
 TMaxLen == <<5, 5, 5, 4, 5>>
 =============================================================================
